@@ -22,7 +22,7 @@ from litedram.phy import dfi as ldfi
 from litedram.phy.model import get_sdram_phy_settings, sdram_module_nphases
 
 from .engine import Sim
-from .agents import NativeMaster, RefMem, Violations, word_of
+from .agents import NativeMaster, RefMem, Violations, word_of, StreamMonitor
 from .dramref import DramRef, AddrMap, Datasheet, log2i
 
 
@@ -138,6 +138,8 @@ class CoreBench:
         return out
 
 
+from .props.c07 import View  # noqa: E402
+
 PROP_OF = {"c01": "C01", "c02": "C02", "c03": "C03", "c04": "C04", "c05": "C05", "c06": "C06"}
 
 
@@ -154,11 +156,15 @@ def service_latency(tb, postponing):
 
 def run_core(scn, want=("c01", "c02", "c03", "c04", "c05", "c06")):
     core = scn["core"]
-    tb = CoreBench(core)
+    tb = CoreBench(core, clocks=scn.get("clocks"), track_multireg=bool(scn.get("faults", {}).get("meta_window")))
     sim = tb.sim
     viol = Violations(sim, cap=12)
     ds = Datasheet(tb.module)
     dram = DramRef(sim, tb.dut.phy.dfi, tb.dram_cfg(), viol, amap=tb.amap, datasheet=ds)
+    if scn.get("faults", {}).get("meta_window"):
+        meta = sim.enable_metastability(scn["faults"]["meta_window"], scn["faults"].get("meta", [1]))
+    else:
+        meta = None
     ref = RefMem()
     nb = tb.data_bytes
     amap = tb.amap
@@ -172,36 +178,47 @@ def run_core(scn, want=("c01", "c02", "c03", "c04", "c05", "c06")):
     waits = {"cmd": 0, "resp": 0}
     B = scn.get("limits", {}).get("wait_bound")
 
-    def mk(i, port, ops):
+    def mk(i, port, ops, pc):
         exp = []
         expects.append(exp)
-        state = {"offer": None}
         pend = []   # accept cycles of commands awaiting their response (in order, per kind)
         wpend = []
+        nbu = port.data_width // 8
+        native = (nbu == nb) and pc.get("cd", "sys") == "sys"
+        view = View(port.data_width, nb * 8, pc.get("reverse", False))
+        full = (1 << nbu) - 1
 
         def on_cmd(op):
             stats["cmds"] += 1
-            a = op["addr"] & ((1 << amap.aw) - 1)
-            rank, bank, row, col = amap.fwd(a)
-            dram.push_request(rank, bank, op["we"], row, col, "port%d op%d addr 0x%x" % (i, op["id"], a))
+            a = op["addr"] & ((1 << port.address_width) - 1)
             sim.ev("cmd", i, op["id"], op["we"], a)
+            mb = view.mem_bytes(a)
             if op["we"]:
                 stats["writes"] += 1
-                sel = op.get("sel", (1 << nb) - 1)
-                if sel != (1 << nb) - 1:
+                sel = op.get("sel", full)
+                if sel != full:
                     stats["partial_sel"] += 1
-                ref.write(a, nb, word_of(op["id"], nb), sel)
-                lw = last_writer.get(a)
-                if lw is not None and lw != i:
-                    stats["cross_port_same_addr"] += 1
-                last_writer[a] = i
+                data = word_of(op["id"], nbu)
+                rm = ref.m
+                for b_, m_ in enumerate(mb):
+                    if (sel >> b_) & 1:
+                        rm[m_] = (data >> (8 * b_)) & 0xFF
+                if native:
+                    lw = last_writer.get(a)
+                    if lw is not None and lw != i:
+                        stats["cross_port_same_addr"] += 1
+                    last_writer[a] = i
                 wpend.append(cyc_box[0])
             else:
                 stats["reads"] += 1
-                lw = last_writer.get(a)
-                if lw is not None and lw != i:
-                    stats["cross_port_same_addr"] += 1
-                exp.append((op["id"], a, ref.read(a, nb)))
+                if native:
+                    lw = last_writer.get(a)
+                    if lw is not None and lw != i:
+                        stats["cross_port_same_addr"] += 1
+                v = 0
+                for b_, m_ in enumerate(mb):
+                    v |= ref.byte(m_) << (8 * b_)
+                exp.append((op["id"], a, v))
                 pend.append(cyc_box[0])
 
         got = [0]
@@ -215,12 +232,12 @@ def run_core(scn, want=("c01", "c02", "c03", "c04", "c05", "c06")):
                 if w > waits["resp"]:
                     waits["resp"] = w
             if k >= len(exp):
-                viol.add("c01.spurious_rdata", "port %d: read data 0x%x returned with no read outstanding" % (i, data))
+                viol.add(pfx(pc) + ".spurious_rdata", "port %d: read data 0x%x returned with no read outstanding" % (i, data))
                 return
             oid, a, v = exp[k]
             if data != v:
-                viol.add("c01.read_data", "port %d read #%d (op %d, addr 0x%x -> rank/bank/row/col %s) returned 0x%x, expected 0x%x"
-                         % (i, k, oid, a, amap.fwd(a), data, v))
+                viol.add(pfx(pc) + ".read_data", "port %d (%d-bit%s) read #%d (op %d, addr 0x%x) returned 0x%x, expected 0x%x"
+                         % (i, port.data_width, "" if pc.get("cd", "sys") == "sys" else ", clock domain " + pc["cd"], k, oid, a, data, v))
 
         def on_wdata(op, data, sel, valid):
             if wpend:
@@ -228,18 +245,42 @@ def run_core(scn, want=("c01", "c02", "c03", "c04", "c05", "c06")):
                 if w > waits["resp"]:
                     waits["resp"] = w
 
+        cdc = pc.get("cd", "sys") != "sys"
         m = NativeMaster(sim, port, ops, name="m%d" % i, on_cmd=on_cmd, on_rdata=on_rdata, on_wdata=on_wdata,
-                         loop=scn["ports"][i].get("loop", False))
+                         loop=scn["ports"][i].get("loop", False), rready=scn["ports"][i].get("rready") if cdc else None,
+                         max_reads=max(1, 16 // max(1, nbu // nb)) if cdc else None)
         m.got = got
         m.exp = exp
         m.pend, m.wpend = pend, wpend
         return m
 
-    for i, (port, pc) in enumerate(zip(tb.ports, scn["ports"])):
-        ops = pc["ops"]
-        m = mk(i, port, ops)
+    def pfx(pc):
+        if pc.get("cd", "sys") != "sys":
+            return "c08"
+        if pc.get("data_width") not in (None, nb * 8):
+            return "c07"
+        return "c01"
+
+    for i, (port, pc) in enumerate(zip(tb.ports, core["ports"])):
+        ops = [dict(o) for o in scn["ports"][i]["ops"]]
+        if port.data_width < nb * 8:
+            for o in reversed(ops):     # up-converted port: the final command of a sequence carries last=1
+                if "flush" not in o:
+                    o["last"] = 1
+                    break
+        m = mk(i, port, ops, pc)
         masters.append(m)
-        sim.add_agent("sys", m)
+        sim.add_agent(pc.get("cd", "sys"), m)
+
+    # L0: requests as accepted at the crossbar, linked to the column commands on the DFI bus
+    def xmon(i, xp):
+        def on(x):
+            a = x["addr"]
+            rank, bank, row, col = amap.fwd(a)
+            dram.push_request(rank, bank, x["we"], row, col, "xbar master %d addr 0x%x" % (i, a))
+        return StreamMonitor(sim, xp.cmd, ["we", "addr"], on)
+    for i, xp in enumerate(tb.xports):
+        sim.add_agent("sys", xmon(i, xp))
 
     # monitors: cmd wait time (first offer -> accept), abstract states
     fs = tb.fsm_state_indices()
@@ -307,7 +348,7 @@ def run_core(scn, want=("c01", "c02", "c03", "c04", "c05", "c06")):
                 offer[i] = None
         cyc_box[0] = cyc
         sim.step()
-        cyc += 1
+        cyc = sim.cycles["sys"]
         if cyc % sample_every == 0:
             states.add((S[fs["mux"]], S[fs["ref"]], tuple(sorted(S[j] for j in fs["bm"]))))
         if bound is not None:
